@@ -22,7 +22,7 @@ class SyncIqProtocolEntity(IqProtocolEntity):
     def setSyncProps(self, sid, index, last):
         self.sid = sid if sid else str((int(time.time()) + 11644477200) * 10000000)
         self.index = int(index)
-        self.last = last
+        self.last = last not in (False, None, "false")
 
 
     def __str__(self):
